@@ -239,7 +239,13 @@ def run(ctx):
             if rng.random() < 0.6:
                 # the same faulty text with 1..3 balanced ranges moved into %include fragments: the culprit line is
                 # then a line of the main resource or of a fragment (which counts its own lines), at any include depth
-                main, files, placements, where_is = cutter.cut_tracked(rng, lines, rng.choice([1, 2, 3]))
+                # (lines of resources read from files may end in characters that str.isspace() accepts but that are NOT line
+                #  terminators for the parser: form feed, vertical tab, FS/GS/RS, NEL, LINE/PARAGRAPH SEPARATOR)
+                deco = list(lines)
+                for k in range(len(deco)):
+                    if rng.random() < 0.15:
+                        deco[k] = deco[k] + rng.choice(["\x0c", "\x0b", "\x1c", "\x1d", "\x85", "\u2028", "\u2029", " \x0c "])
+                main, files, placements, where_is = cutter.cut_tracked(rng, deco, rng.choice([1, 2, 3]))
                 if placements and (culprit - 1) in where_is:
                     d = cfgstream.Case()
                     d.sd, d.real, d.elab, d.hnames = sd, real, elab, hn
@@ -292,6 +298,21 @@ def run(ctx):
         elif out[1] == "conversion" and c.meta["extra"].get("value") is not None and out[4] != c.meta["extra"]["value"]:
             ctx.violate("conversion error does not carry the offending text: %r vs %r" % (out[4], c.meta["extra"]["value"]),
                         dict(c.replay(), impl=out), signature="C08:conversion-value")
+    # a datatype that rejects by raising a located ZConfig error of its own (e.g. one implemented with a nested load): the
+    # error the application sees must still name the line and resource of the value being converted, and that value
+    import io
+    import ZConfig
+    sch = ZConfig.loadSchemaFile(io.StringIO(
+        "<schema><sectiontype name='s'><key name='k' datatype='zcvdt.nested'/><multikey name='m' datatype='zcvdt.nested'/></sectiontype>"
+        "<multisection type='s' name='*' attribute='ss'/><key name='k' datatype='zcvdt.nested'/></schema>"))
+    for text, line, val in (("# c\n\nk a !nested b\n", 3, "a !nested b"), ("<s>\n k ok\n m fine\n m x!nested\n</s>\n", 4, "x!nested"),
+                            ("k fine\n<s a>\n</s>\n<s b>\n k !nested\n</s>\n", 5, "!nested")):
+        out, _, _ = cfgrun.real_load(sch, text, cfgstream.URL)
+        ctx.evaluations += 1
+        ctx.nontriv(("nested-datatype", text))
+        if out[0] != "cfg" or out[1] != "conversion" or out[2] != line or out[3] != cfgstream.URL or out[4] != val:
+            ctx.violate("a datatype raising its own located error at line %d: the error carries %r" % (line, out),
+                        {"text": text, "expected": ["conversion", line, cfgstream.URL, val], "impl": out}, signature="C08:nested-datatype-error")
     if cases:
         ctx.sample({"lines": cases[0].lines, "culprit": cases[0].meta["culprit"], "fault": cases[0].faults, "impl": cases[0].out})
         ctx.sample({"lines": cases[-1].lines, "culprit": cases[-1].meta["culprit"], "fault": cases[-1].faults, "impl": cases[-1].out})
